@@ -52,7 +52,7 @@ func main() {
 		}
 	}
 	exhaustive(run)
-	sets := run.Pick(4000, 300000)
+	sets := run.Pick(4000, 900000)
 	const per = 50
 	run.Parallel(sets/per, func(batch int) {
 		r := run.Rand(uint64(batch))
